@@ -181,7 +181,7 @@ func (c *c08) Apply(e seqx.Event) seqx.StepResult {
 			node = c.W.PeerIP(4) // a node id nobody has associated
 		}
 		_, assoc := c.R.Nodes[node]
-		cp := uint64(0x10) // every peer chooses the same CP SEID
+		cp := uint64(0x10) // every peer chooses the same CP SEIDs (0x10 for its first live session, 0x20 for the second)
 		for _, s := range c.R.Live {
 			if s.Peer == p && s.CP == cp {
 				cp = 0x20
@@ -217,6 +217,10 @@ func (c *c08) Apply(e seqx.Event) seqx.StepResult {
 			j.Fail("est-no-fseid", "accepted Establishment Response without UP F-SEID")
 			break
 		}
+		if other := c.R.Live[up]; other != nil {
+			j.Fail("fseid-shared-with-live-session", "the UP F-SEID %#x returned for the new session (CP SEID %#x) is the one session %s (CP SEID %#x) was given and still uses: it cannot address both", up, cp, c.Label(up), other.CP)
+			break
+		}
 		c.EstUP = append(c.EstUP, up)
 		c.R.NewSess(up, cp, node)
 		// Created PDR exactly for PDRs that carried a UE IPv4 address
@@ -227,11 +231,19 @@ func (c *c08) Apply(e seqx.Event) seqx.StepResult {
 		if fmt.Sprint(got) != fmt.Sprint(ue) {
 			j.Fail("created-pdr-list", "Created PDR IEs %v, want exactly those for PDRs with a UE IP address: %v", got, ue)
 		}
-		// the UP F-SEID addresses the new session from now on
-		ps := c.NextSeq(p)
-		po := c.W.Send(p, smf.Mod(ps, up, ""))
-		if pm := c.correlate(j, "ModAfterEst", po, p, ps, smf.MModRsp); pm == nil || pm.Cause() != smf.CauseAccepted || pm.SEID != cp {
-			j.Fail("fseid-does-not-address-session", "a Modification addressed to the UP F-SEID %#x just returned was answered %v, want accepted with CP SEID %#x", up, pm, cp)
+		// the UP F-SEID addresses the new session from now on - and the F-SEIDs returned earlier keep
+		// addressing their sessions (probe every live session, each from its own peer)
+		for _, lup := range c.R.LiveIDs() {
+			ls := c.R.Live[lup]
+			ps := c.NextSeq(ls.Peer)
+			po := c.W.Send(ls.Peer, smf.Mod(ps, lup, ""))
+			if pm := c.correlate(j, "ModAfterEst", po, ls.Peer, ps, smf.MModRsp); pm == nil || pm.Cause() != smf.CauseAccepted || pm.SEID != ls.CP {
+				which := "just returned"
+				if lup != up {
+					which = "returned by an earlier establishment"
+				}
+				j.Fail("fseid-does-not-address-session", "after this establishment a Modification addressed to the UP F-SEID %s (%s) was answered %v, want accepted with that session's CP SEID %#x", c.Label(lup), which, pm, ls.CP)
+			}
 		}
 	case "Mod", "Del", "ModRaw", "DelRaw":
 		seid := uint64(e.A[0])
